@@ -1,7 +1,14 @@
-(* Extraction of the executable models to OCaml (zarith big integers). *)
+(* Extraction of the executable models to OCaml (zarith big integers).
+   Directives: those of ExtrOcamlBasic and ExtrOcamlZBigInt, plus Z.gcd mapped to zarith's gcd
+   (Coq's own Z.gcd is a bit-by-bit binary gcd, far too slow on 1000-bit denominators). *)
 From Coq Require Import ZArith List.
 From Coq Require Import ExtrOcamlBasic ExtrOcamlZBigInt.
-From MV Require Import Model.Insphere.
+From MV Require Import Model.Insphere Model.Cycle Model.CellExact.
+
+Extract Constant Z.gcd => "Big_int_Z.gcd_big_int".
 
 Extraction Language OCaml.
-Extraction "model.ml" insphere_model in_gridb.
+Extraction "model.ml" insphere_model in_gridb
+  cyc_new cyc_grow cyc_init cyc_try_extend cyc_iter clip_comb
+  build build_all cell_init clip bisector max_radius2 decompose decompose_faces faces_of
+  vol6_of centroid_sum moment2 face_area2n face_centroid_sum plane_has_tet side norm2 vertices_feasible duals_oriented.
